@@ -26,6 +26,19 @@ Definition run_allfail (p : plat) (meth site : string) (e : err) (s : pstate) (p
   let c := Build_cond e s (pid =? 0) in
   JL [ jv_res pid (all_outcome p meth site c);
        (if err_ok p e then jopt (jv_res pid) (all_demanded p meth site c) else jnone) ].
+(* front-end history [name() (mode 0) | name() never called (1) | name() failed (2)], then method pm failing at site:
+   the name returned and the outcome with the name it carries *)
+Definition jv_res_named (pid : Z) (r : res) (name : option bytes) : jv :=
+  let args := [JZ pid; jopt JB name] in
+  match r with
+  | RNoSuch => JC "NoSuchProcess" args | RZombie => JC "ZombieProcess" args | RDenied => JC "AccessDenied" args
+  | RTimeout => JC "TimeoutExpired" args
+  | RRaw => JC "Raw" [] | RVal => JC "Val" [] | RRawProbe => JC "RawProbe" []
+  end.
+Definition run_fename (p : plat) (kname cmd0 : bytes) (mode : Z) (pm site : string) (e : err) (s : pstate) : jv :=
+  let (ret, o) := fe_history_model p kname cmd0 mode pm site e s in
+  JL [ jopt JB ret; match o with ORes r' nm => jv_res_named 7 r' nm | _ => JC "NoOutcome" [] end ].
+
 (* double fault: model outcome and acceptable set *)
 Definition run_probe (p : plat) (meth site : string) (e1 e2 : err) (pid : Z) : jv :=
   let z := pid =? 0 in
@@ -139,7 +152,8 @@ Definition run_tables : jv :=
        JL (map (fun b => JL [jstr (l_meth b); jstr (l_site b)]) (filter (fun b => negb (ablock_ok b)) all_blocks));
        jbool (ablocks_complete ladder_blocks all_blocks);
        JL (map (fun b => JL [jstr (l_meth b); jstr (l_site b)]) (filter (fun b => negb (prblock_ok b)) probe_blocks));
-       jbool (prblocks_complete ladder_blocks probe_blocks) ].
+       jbool (prblocks_complete ladder_blocks probe_blocks);
+       jbool (forallb frow_ok fename_rows && frows_complete fename_rows) ].
 
 (* named tuple of a system-wide function on a platform: probed field list, documented field list *)
 Definition run_sysfields (p : plat) (fn : string) : jv :=
